@@ -8,7 +8,7 @@ hprop.install(globals(), hprop.HistoryProperty(
     monitors=lambda: [C10Membership()],
     profile=profile(nv=(2, 7), n_requests=(5, 30), fleets=[0, 1, 2, 2, 3], socs=[0.02, 0.1, 0.15, 0.3, 0.8, 0.97], builtin=[True, True, False]),
     nontrivial=lambda f: {"cross_fleet_instruction_rejected", "builtin_pairing"} <= f,
-    rule=("stateful histories over generated worlds with 2-3 fleets and every vehicle, station, base independently in zero, one or several of "
+    rule=("stateful histories over generated worlds with 1-3 fleets (ids that may contain one another: f1 / f10 / f100) and every vehicle, station, base independently in zero, one or several of "
           "them (plus the loader's private home-base memberships), requests carrying one fleet; adversarial controllers target other "
           "fleets' entities from every activity; built-in dispatcher + charging manager + drivers in two thirds of the cases. (a) after every "
           "step and single-instruction probe, every vehicle travelling to / serving / queueing / charging / parked at an entity must be "
